@@ -107,6 +107,33 @@ Definition pfb_root (n : nat) (bonds : list (nat * nat)) (acc : list nat * list 
 Definition pfb_walk (n : nat) (bonds : list (nat * nat)) : list (nat * nat) :=
   snd (fold_left (pfb_root n bonds) (seq 0 n) ([], [])).
 
+(* What the translator (harness/props/C11.py:translate) reads off the source of _parent_first_bonds, and the
+   values that [pfb_walk] implements.  Gen/WholeWalk.v is regenerated from /repo on every run and Props/C11.v
+   proves it equal to [model_walk_spec]: a change of the traversal that flips one of these breaks that obligation;
+   a rewrite the translator cannot read degrades to the correspondence alone. *)
+Record walk_spec := mkWalkSpec {
+  ws_roots_ascending : bool;      (* for root in range(n_atoms) *)
+  ws_adj_both : bool;             (* neighbors[b0].append(b1) AND neighbors[b1].append(b0) *)
+  ws_pop_last : bool;             (* atom = stack.pop() *)
+  ws_skip_placed : bool;          (* if not placed[other] *)
+  ws_mark_on_push : bool;         (* placed[other] = True *)
+  ws_emit_parent_child : bool;    (* walk.append((atom, other)) *)
+  ws_push_new : bool              (* stack.append(other) *) }.
+Definition model_walk_spec : walk_spec := mkWalkSpec true true true true true true true.
+
+(* topology.py:find_molecules -- the connected components of the bond graph, numbered in the order of their
+   lowest atom.  Modelled as a FUNCTION (the partition), computed with the traversal above; the Python code uses its
+   own depth-first loop (atom_stack / neighbor_stack), whose visiting order differs but cannot be observed in the
+   result (a list of atom SETS); the correspondence compares the partition exactly on every generated topology. *)
+Definition fm_root (n : nat) (bonds : list (nat * nat))
+           (acc : (list nat * list (nat * nat)) * list (list nat)) (root : nat)
+  : (list nat * list (nat * nat)) * list (list nat) :=
+  if memn root (fst (fst acc)) then acc
+  else let acc' := pfb_root n bonds (fst acc) root in
+       (acc', snd acc ++ [filter (fun x => negb (memn x (fst (fst acc)))) (fst acc')]).
+Definition find_molecules (n : nat) (bonds : list (nat * nat)) : list (list nat) :=
+  snd (fold_left (fm_root n bonds) (seq 0 n) (([], []), [])).
+
 (* the bond list handed to the kernel: the caller's sorted_bonds verbatim when given *)
 Definition bond_walk (fixed : bool) (n : nat) (added : list (nat * nat)) (explicit : option (list (nat * nat)))
   : list (nat * nat) :=
